@@ -128,6 +128,30 @@ fn contract_insert(lens: [usize; MAXC], el: usize, idx: usize) {
     assert!(after.1 == before.1 + el, "C20.insert.len: total length grows by the segment length");
     if el == 0 {
         assert!(same(&after, &before), "C20.insert.empty: an empty segment leaves the value unchanged");
+    } else {
+        // offset of the idx-th chunk (idx == number of chunks: behind the last one)
+        let mut off = 0usize;
+        let mut k = 0usize;
+        let mut i = 0usize;
+        while i < MAXC {
+            if lens[i] != 0 {
+                if k < idx {
+                    off += lens[i];
+                }
+                k += 1;
+            }
+            i += 1;
+        }
+        let mut ok = true;
+        let mut j = 0usize;
+        while j < after.1 && j < CAP {
+            let exp = if j < off { before.0[j] } else if j < off + el { extra[j - off] } else { before.0[j - el] };
+            if after.0[j] != exp {
+                ok = false;
+            }
+            j += 1;
+        }
+        assert!(ok, "C20.insert.view: the segment's bytes appear exactly at the chunk boundary idx, everything else keeps its order");
     }
     core::mem::forget(c);
 }
